@@ -48,10 +48,14 @@ def reset_class_state(M):
         for name, val in vars(cls_).items():
             if isinstance(val, tuple) and val and all(hasattr(x, "id_") for x in val):
                 for s in val:
-                    # attributes a definition object acquired at run time (memoised readings ...) are dropped
-                    keys = _DEF_KEYS.setdefault(id(s), frozenset(vars(s)))
-                    for extra in [k for k in vars(s) if k not in keys]:
-                        delattr(s, extra)
+                    # state a definition object acquired at run time (memoised readings ...) is dropped: attributes
+                    # go back to the value they had when the object was first seen (label tables stay wrapped)
+                    init = _DEF_KEYS.setdefault(id(s), dict(vars(s)))
+                    for k in list(vars(s)):
+                        if k not in init:
+                            delattr(s, k)
+                        elif vars(s)[k] is not init[k] and "label" not in k:
+                            setattr(s, k, init[k])
                     if isinstance(s, (S.EcoModeV1, S.Schedule)):
                         fresh = type(s)(s.id_, s.offset, s.name)
                         s.__dict__.update(fresh.__dict__)
